@@ -4,6 +4,7 @@
 //!   cfdp-verif replay <file.json>
 mod common;
 mod props;
+mod wire;
 
 use common::*;
 
